@@ -21,6 +21,10 @@ claim("C01",
       "exhaustiveness tables (parser-constructed AST node kinds and operators vs the engine's dispatch switches); abstract execution of every Result combinator against its truth-table contract; dataflow of the context handed to each operand of an intersection/negation back to a per-operand fresh visited set; exhaustive evaluation of checkIsAllowed's branch conditions over all 24 consistent mode valuations against the documented table; def-use check that skipDirect=true only follows a tested traversal result",
       "Decides five structural necessary conditions of check correctness (dispatch exhaustive, combinator truth tables, visited-set scope, mode table, skipDirect justification); does not decide equality with the reference semantics over all stores. Right level: each is visible in the shape of the engine code on every path.")
 
+claim("C08",
+      "call-graph reachability of the one engine entry from every check entry point; def-use tracing of every value stored into an Allowed response field back to the engine's decision; dominance of the 200/403 writes by the decision; loop-iteration identity of batch slot index and tuple; freshness of JSON decode targets",
+      "Decides that every check transport funnels into Engine.CheckRelationTuple, reads the decision the same way, mirrors it in the status code, and keeps batch entries index-aligned and independent; does not decide equality of decoded inputs across encodings. Right level: these are wiring facts of the handlers.")
+
 for p in ["C04","C05","C06","C07","C08","C09","C11","C12","C13","C14","C16","C18","C19"]:
     na(p, NOTBUILT)
 na("C10", "semantic equivalence between the parser's output and TypeScript's grammar over all programs: precedence/associativity is not a code shape every correct parser shares; no sound structural necessary condition found (and the property is known to be violated: a||b&&c parses as (a||b)&&c), so a static green light would be misleading")
